@@ -25,6 +25,8 @@ func init() {
 }
 
 func runC02(c *core.Ctx) {
+	c.Rule("UNIQCMP", "unique column names are compared exactly")
+	checkUniqueNameComparison(c, "UNIQCMP")
 	c.Rule("ALIASMAP", "a Typecheck method does not modify the name mapping a child returned")
 	checkChildMappingUntouched(c, "ALIASMAP")
 	c.Rule("CTEFRESH", "every reference to a common table expression gets fresh unique column names")
